@@ -1203,6 +1203,23 @@ def replay_case(case: dict) -> dict:
     res = {"violation": None, "harness_error": None, "stats": stats}
     try:
         case = json.loads(json.dumps(case))
+        if "table" in case and case["table"] in ("chain", "product"):
+            k = case["k"]
+            try:
+                if case["table"] == "chain":
+                    ts = [Tensor(np.array([[float(i % 5 + 2)]]), covariant=[0]) for i in range(k)]
+                    TensorDiagram(*[(ts[i + 1], ts[i]) for i in range(k - 1)]).calculate()
+                else:
+                    d = TensorDiagram()
+                    for i in range(k):
+                        d.add_node(Tensor([2.0]))
+                    d.calculate()
+            except Exception as e:  # noqa: BLE001
+                v = mk_violation({"i": 0, "op": "calc"}, "einsum-limit", f"{type(e).__name__}: {e}")
+                v["signature"] = ("M5|calc|einsum-limit-total-rank-above-52" if case["table"] == "chain"
+                                  else "M5|calc|einsum-limit-more-than-32-nodes")
+                res["violation"] = v
+            return res
         if "table" in case:
             if case["table"] == "eps":
                 e = LeviCivitaTensor(case["n"], case["cov"])
@@ -1274,9 +1291,45 @@ def exhaustive_tables(tier: str) -> tuple[dict, list]:
                                  "seed": 0, "replay": {"table": "delta", "n": n, "p": p}})
             if order == "ascending":
                 sizes_d.append([n, p])
+    # large diagrams: chains of k (1,1)-tensors with axes of length 1 (the value is a product of scalars, the cost
+    # is nil, only the bookkeeping grows) and edge-less diagrams of k rank-1 nodes
+    large = {"chains_ok": [], "products_ok": []}
+    for k in (8, 16, 26, 27, 40):
+        ts = [Tensor(np.array([[float(i % 5 + 2)]]), covariant=[0]) for i in range(k)]
+        want = float(np.prod([float(i % 5 + 2) for i in range(k)]))
+        try:
+            r = TensorDiagram(*[(ts[i + 1], ts[i]) for i in range(k - 1)]).calculate()
+            ok = r.tensor_shape == (1, 1) and r.array.shape == (1, 1) and np.isclose(r.array[0, 0], want, rtol=1e-12)
+            err = None if ok else f"value {r.array.ravel()[:1]} type {r.tensor_shape}, expected {want} type (1,1)"
+        except Exception as e:  # noqa: BLE001
+            err = f"{type(e).__name__}: {e}"
+        if err is None:
+            large["chains_ok"].append(k)
+        else:
+            v = mk_violation({"i": 0, "op": "calc"}, "einsum-limit", f"chain of {k} (1,1)-tensors (total rank {2 * k}): {err}")
+            v["signature"] = "M5|calc|einsum-limit-total-rank-above-52"
+            viol.append({"violation": v, "seed": 0, "replay": {"table": "chain", "k": k}})
+            break
+    for k in (8, 32, 33):
+        try:
+            d = TensorDiagram()
+            for i in range(k):
+                d.add_node(Tensor([2.0]))
+            r = d.calculate()
+            ok = r.array.shape == (1,) * k and r.array.ravel()[0] == 2.0 ** k and r.tensor_shape == (k, 0)
+            err = None if ok else f"shape {r.array.shape[:4]}.. type {r.tensor_shape}"
+        except Exception as e:  # noqa: BLE001
+            err = f"{type(e).__name__}: {e}"
+        if err is None:
+            large["products_ok"].append(k)
+        else:
+            v = mk_violation({"i": 0, "op": "calc"}, "einsum-limit", f"edge-less diagram of {k} rank-1 nodes: {err}")
+            v["signature"] = "M5|calc|einsum-limit-more-than-32-nodes"
+            viol.append({"violation": v, "seed": 0, "replay": {"table": "product", "k": k}})
+            break
     W.evict_caches(3)
-    info = {"tables": {"exhaustive": True, "epsilon_sizes": sizes_e, "delta_sizes": sizes_d,
+    info = {"large_diagram_probes": large, "tables": {"exhaustive": True, "epsilon_sizes": sizes_e, "delta_sizes": sizes_d,
                        "entries_compared": entries, "orders": ["cold ascending", "cold descending", "warm re-read"],
                        "out_of_range": f"epsilon(n > {nmax}) (n=9 needs 387 MB) and delta beyond 20000 entries",
                        "wall_s": round(time.time() - t0, 1)}}
-    return info, viol[:3]
+    return info, viol[:4]
